@@ -180,7 +180,13 @@ def rule_ownership_primitives(ctx, rule="OWNPRIM"):
     for path, b in F.bodies.items():
         for bb, t in b.calls():
             n = callee_name(t)
-            if n in ("core::mem::forget", "core::mem::ManuallyDrop::<T>::new", "core::mem::manually_drop::ManuallyDrop::<T>::new", "core::mem::replace", "core::mem::swap", "core::mem::take") and any(h in " ".join(t.get("generic_args", []) + t.get("arg_tys", [])) for h in ("repr::Repr", "LeanString", "HeapBuffer")):
+            tys = " ".join(t.get("generic_args", []) + t.get("arg_tys", []))
+            # leaking primitives on any handle type; value-swapping ones only on the drop-less raw
+            # handles (mem::take / replace / swap of a LeanString moves a value that still has its
+            # drop glue: ownership is preserved)
+            if n in ("core::mem::forget", "core::mem::ManuallyDrop::<T>::new", "core::mem::manually_drop::ManuallyDrop::<T>::new") and any(h in tys for h in ("repr::Repr", "LeanString", "HeapBuffer")):
+                bad.append("%s in %s" % (n, path))
+            if n in ("core::mem::replace", "core::mem::swap", "core::mem::take") and any(h in tys for h in ("repr::Repr", "HeapBuffer", "InlineBuffer", "StaticBuffer")):
                 bad.append("%s in %s" % (n, path))
     ctx.ob(rule, "crate", "no-forget/ManuallyDrop/replace", not bad, how="no mem::forget / ManuallyDrop / mem::replace|swap|take on handle types", detail="ownership-bypassing primitive on a handle: %s" % bad[:3])
 
@@ -234,3 +240,31 @@ def rule_atomics_syntactic(ctx, rule="P4"):
             ctx.ob(rule, path, "atomic:" + site, leaf in ("fetch_add", "fetch_sub", "load") and on_counter, how="%s on the reference counter" % leaf, line=t.get("line", 0),
                    detail="atomic operation %s on %s is outside the Arc protocol (only fetch_add / fetch_sub / load on the reference counter are allowed)" % (leaf, a0))
     ctx.need(rule, "crate", "atomic-sites", n >= 5, "only %d atomic operations found" % n, how="%d atomic operations" % n)
+
+
+WRAPPERS = {"try_reserve": "reserve", "try_shrink_to": "shrink_to", "try_shrink_to_fit": "shrink_to", "try_push_str": "push_str", "try_push": "push_str",
+            "try_pop": "pop", "try_remove": "remove", "try_insert_str": "insert_str", "try_insert": "insert_str", "try_truncate": "truncate",
+            "try_retain": "retain", "try_with_capacity": "with_capacity"}
+
+
+def rule_wrappers_delegate(ctx, rule="WRAP", only=None):
+    """the public try_* methods are the storage layer's operations: every path through a wrapper
+    passes its Repr-level operation (directly or in a private helper) - a fast path that returns
+    without it skips what the operation guarantees (exclusive ownership after reserve, the index
+    checks, the growth rule ...) - and the size / index argument is handed over unchanged"""
+    from guards import must_pass_call, inlined_sites
+    F = ctx.F
+    for w, tgt in WRAPPERS.items():
+        if only and w not in only:
+            continue
+        fn, t = "LeanString::" + w, "repr::Repr::" + tgt
+        b = F.bodies.get(fn)
+        ctx.need(rule, fn, "anchor", b is not None and t in F.bodies, "%s / %s not found" % (fn, t))
+        if not b:
+            continue
+        ctx.ob(rule, fn, "must-pass:" + tgt, must_pass_call(b, {t}), how="every path through %s passes %s" % (w, t),
+               detail="%s can return without calling %s: on that path the operation's own guarantees (made exclusive, validated, grown by the rule) are skipped" % (fn, t))
+        if w in ("try_reserve", "try_shrink_to", "try_with_capacity", "try_truncate", "try_remove"):
+            for st in inlined_sites(b, lambda nm: nm == t):
+                a = st.desc(len(st.t["args"]) - 1)
+                ctx.ob(rule, fn, "argument-passthrough:" + tgt, a == "p%d" % b.arg_count, how="the caller's amount / index is forwarded unchanged", detail="%s forwards %s to %s" % (fn, a, t))
